@@ -169,13 +169,15 @@ func (g *Gen) Bootstrap() []*transaction.Transaction {
 		txs = append(txs, g.tx(v, g.hash(nativenames.Gas), "transfer", g.E.Validator.ScriptHash(), a.ScriptHash(), int64(3000_00000000), nil))
 		txs = append(txs, g.tx(v, g.hash(nativenames.Neo), "transfer", g.E.Validator.ScriptHash(), a.ScriptHash(), int64(5_000_000+g.R.Intn(8_000_000)), nil))
 	}
-	txs = append(txs, g.tx([]neotest.Signer{g.E.Committee}, g.hash(nativenames.Neo), "setRegisterPrice", int64(5_00000000)))
+	// the committee's multisig account pays for committee-signed transactions (policy, roles)
+	txs = append(txs, g.tx(v, g.hash(nativenames.Gas), "transfer", g.E.Validator.ScriptHash(), g.E.Committee.ScriptHash(), int64(5000_00000000), nil))
 	return txs
 }
 
 // Bootstrap2 makes the committee depend on votes: enough candidates and enough voter turnout.
 func (g *Gen) Bootstrap2() []*transaction.Transaction {
 	var txs []*transaction.Transaction
+	// registration at the default price (1000 GAS) for the first candidates; cheaper afterwards
 	for i, a := range g.Accts {
 		if i < len(g.Net.Committee)+1 {
 			txs = append(txs, g.tx([]neotest.Signer{a}, g.hash(nativenames.Neo), "registerCandidate", a.Account().PublicKey().Bytes()))
@@ -186,6 +188,7 @@ func (g *Gen) Bootstrap2() []*transaction.Transaction {
 		c := g.Accts[(i*3+1)%(len(g.Net.Committee)+1)]
 		txs = append(txs, g.tx([]neotest.Signer{a}, g.hash(nativenames.Neo), "vote", a.ScriptHash(), c.Account().PublicKey().Bytes()))
 	}
+	txs = append(txs, g.tx([]neotest.Signer{g.E.Committee}, g.hash(nativenames.Neo), "setRegisterPrice", int64(5_00000000)))
 	return txs
 }
 
